@@ -4,6 +4,7 @@ import (
 	"fmt"
 	"log"
 	"os"
+	"regexp"
 	"strings"
 	"syscall"
 
@@ -59,6 +60,8 @@ func (c *capture) take() string {
 	return string(buf)
 }
 
+var numberRE = regexp.MustCompile(`[+-]?[0-9]+(\.[0-9]+)?([eE][+-]?[0-9]+)?|NaN|[+-]?Inf`)
+
 var glyphSets = [][]string{{"ж", "ѣ", "ψ", "ʘ"}, {"ξ", "ƕ", "ȣ", "ʭ"}}
 
 // relabel maps a,b,c,d (the template letters) to the glyphs of set k.
@@ -111,6 +114,11 @@ func (s *c18State) observe(template string, class string, out GenOut, rp map[str
 			return
 		}
 	}
+	// non-interference is judged on the text with every number replaced by
+	// '#': diagnostics may contain counts and probabilities, and those may
+	// legitimately depend on what was drawn (how many requirements a rejected
+	// candidate missed); anything else that varies is a fragment of a secret
+	text = numberRE.ReplaceAllString(text, "#")
 	k := template + " / " + class
 	if prev, ok := s.seen[k]; ok {
 		if prev != text {
@@ -335,12 +343,12 @@ func c18Run(c *core.Ctx) {
 	}
 	// ---- class-based recipes: non-interference only
 	classR := []ref.CharRecipe{
-		{Length: 2, Allow: ref.Digits},
-		{Length: 2, Allow: ref.Symbols, Require: ref.Digits},
-		{Length: 1, Allow: ref.Letters, Require: ref.Digits},
-		{Length: 3, Allow: ref.Digits, Exclude: ref.Digits},
-		{Length: 0, Allow: ref.Digits},
-		{Length: 8, Allow: ref.Letters, Require: ref.Digits | ref.Symbols},
+		{Length: 2, Allow: ref.Lowers},
+		{Length: 2, Allow: ref.Symbols, Require: ref.Uppers},
+		{Length: 1, Allow: ref.Lowers, Require: ref.Uppers},
+		{Length: 3, Allow: ref.Lowers, Exclude: ref.Lowers},
+		{Length: 0, Allow: ref.Lowers},
+		{Length: 8, Allow: ref.Letters, Require: ref.Symbols | ref.Uppers},
 	}
 	for ti, r := range classR {
 		if !c.Mine() {
@@ -369,9 +377,9 @@ func init() {
 	Register(&core.Check{
 		ID:    "C18",
 		Level: "model_checking",
-		Rule: "504 character-recipe templates and 200 wordlist templates whose alphabets, words and separators are secret glyphs (two relabellings: жѣψʘ and ξƕȣʭ), each explored as a complete cell (2 candidates deep; retrying separators with <=2 deviations) plus refused recipes, all-attempts-fail tapes, a source failure at each of the first 6-8 reads, alphabets with bytes that are not valid UTF-8, NewWordList with duplicates, Entropy/SuccessProbability/Alphabet; fd 1, fd 2 and the log are captured per execution; oracle: no secret glyph in the captured text or in a returned error, and the captured text is identical for all random streams of an outcome class and for both relabellings; " +
+		Rule: "504 character-recipe templates and 200 wordlist templates whose alphabets, words and separators are secret glyphs (two relabellings: жѣψʘ and ξƕȣʭ), each explored as a complete cell (2 candidates deep; retrying separators with <=2 deviations) plus refused recipes, all-attempts-fail tapes, a source failure at each of the first 6-8 reads, alphabets with bytes that are not valid UTF-8, NewWordList with duplicates, Entropy/SuccessProbability/Alphabet; fd 1, fd 2 and the log are captured per execution; oracle: no secret glyph in the captured text or in a returned error, and the captured text, with numbers masked (counts and probabilities are allowed to vary), is identical for all random streams of an outcome class and for both relabellings; " +
 			"non-trivial = outcome classes that emitted a diagnostic",
-		Assume: []string{"file-descriptor level capture sees everything the process writes to stdout/stderr, including the log package", "class-based recipes (digits would collide with counts in diagnostics) use the non-interference oracle only"},
+		Assume: []string{"file-descriptor level capture sees everything the process writes to stdout/stderr, including the log package", "class-based recipes (letters and symbols; digits are masked as numbers) use the non-interference oracle only"},
 		Run:    c18Run,
 	})
 }
